@@ -5,4 +5,4 @@ CONSTANTS
   NSHARDS = 1
   EMIT = FALSE
   Wrong = {}
-INVARIANTS TypeOK BaseDerivable BaseZeroIsEither MapConsistent AcceptDerivable MutationApplied UnchangedAccepted TruncationRejected TruncationInsideVariablePartRejected OverrunRejected DataLengthNeverAccepted HugeNeverAccepted SpliceDisagrees VersionChecked EncodingChecked NonFlatNeverAccepted
+INVARIANTS TypeOK BaseDerivable BaseZeroIsEither MapConsistent AcceptDerivable MutationApplied UnchangedAccepted TruncationRejected TruncationInsideVariablePartRejected OverrunRejected DataLengthNeverAccepted HugeNeverAccepted SpliceDisagrees NameNulChecked VersionChecked EncodingChecked NonFlatNeverAccepted
